@@ -23,7 +23,8 @@ EXPLANATION = (
     'proposals (sink sanitised in the model; otherwise names must be un-marked where they are created); R4 the visitors that '
     'locate the cursor-marked node continue into every expression child when the mark is not on the visited node (a cursor below '
     'a call or subscript must still be found). Mark transparency as a whole (a relation between two analyses of every file and '
-    'position) is NOT decided.')
+    'position) is NOT decided.'
+    ' Later additions: R3 the table of recorded attribute assignments is computed from the marked text - SourceScope.assigns (interpreted) must not evaluate a receiver that contains the cursor mark; R4 every statement kind with an expression the cursor can stand in is handled by the statement finders.')
 TECHNIQUE = 'abstract interpretation of assist on stub analyses (one probe per ASCII character before the cursor, stub tables with duplicates and marked names, both set-iteration orders) + finder-visitor completeness rule'
 
 ASSIST = 'supp/assistant.py'
